@@ -427,7 +427,7 @@ def union_refresh(facts):
                     out.append(ob("hll.refresh", key, n["loc"], "violated", "%s reads derived state (%s) of the gadget with no preceding check_rebuild_kxq_cur_min(): after a merge the values are stale (e.g. is_empty() true for a non-empty union)" % (n.get("cname"), "/".join(rd)), fn["qname"]))
     # copy_or_downsample: mergeHll into a fresh array must be followed by the refresher before the array is returned
     for pat, fn in sorted(fns.items()):
-        if fn.get("rect") == "datasketches::hll_union_alloc" and fn["name"] == "copy_or_downsample":
+        if fn.get("rect") == "datasketches::hll_union_alloc" and fn["name"] in downsamplers(fns):
             st = stmts_of(fn["body"])
             m, r = None, None
             for i, s in enumerate(st):
@@ -444,6 +444,33 @@ def union_refresh(facts):
     return out
 
 
+def downsamplers(fns):
+    """names of the hll_union_alloc helpers that produce the HLL_8 copy / down-sampled copy of an implementation object, recognised
+    by what they do (every return is `x->copyAs(HLL_8)` or a local declared as Hll8Array*; the body merges with mergeHll), not by
+    what they are called"""
+    names = set()
+    for fn in fns.values():
+        if fn.get("rect") != "datasketches::hll_union_alloc" or fn.get("body") is None or "HllSketchImpl" not in (fn.get("ret") or ""):
+            continue
+        calls, rets = [], []
+        walk(fn["body"], lambda n: calls.append(n.get("cname")) if n.get("k") == "Call" else None)
+        walk(fn["body"], lambda n: rets.append(n) if n.get("k") == "Return" and n.get("e") is not None else None)
+        if "mergeHll" not in calls or "copyAs" not in calls or not rets or fn["name"] == "union_impl":
+            continue
+        good = True
+        for r in rets:
+            e = strip_all(r["e"])
+            t = txt(e)
+            if e.get("k") == "Call" and e.get("cname") == "copyAs" and ("HLL_8" in t or t.endswith("(2)")):
+                continue
+            if e.get("k") == "Ref" and "Hll8Array" in (e.get("t") or ""):
+                continue
+            good = False
+        if good:
+            names.add(fn["name"])
+    return names or {"copy_or_downsample"}
+
+
 def union_lgk(facts):
     """HLL x HLL merge: a destination with larger lg_k is down-sampled to the source's lg_k before mergeHll"""
     fns = hll_fns(facts)
@@ -452,6 +479,7 @@ def union_lgk(facts):
         if fn.get("rect") != "datasketches::hll_union_alloc" or fn["name"] != "union_impl":
             continue
         idx = [0]
+        dsn = downsamplers(fns)
 
         def visit(n, parents):
             if n.get("k") == "Call" and n.get("cname") == "mergeHll":
@@ -476,7 +504,7 @@ def union_lgk(facts):
                                 small, big = (c["l"], c["r"]) if c["op"] == "<" else (c["r"], c["l"])
                                 if txt(small).startswith("src") and txt(big).startswith("dst"):
                                     ds = []
-                                    walk(s["t"], lambda x: ds.append(x) if x.get("k") == "Call" and x.get("cname") == "copy_or_downsample" else None)
+                                    walk(s["t"], lambda x: ds.append(x) if x.get("k") == "Call" and x.get("cname") in dsn else None)
                                     if ds and txt(ds[0]["args"][0]).startswith("dst") and ("lg_config_k" in txt(ds[0]["args"][1]).lower() or "lgconfigk" in txt(ds[0]["args"][1]).lower()):
                                         ok = True
                                         why = "if (%s) dst = copy_or_downsample(%s, %s)" % (txt(c), txt(ds[0]["args"][0]), txt(ds[0]["args"][1]))
@@ -857,6 +885,7 @@ def union_gadget_type(facts):
     fns = hll_fns(facts)
     out = []
     ok_sources = ("copyAs(HLL_8)", "copyAs(2)", "copy_or_downsample(", "leak_free_coupon_update(", "gadget_.sketch_impl", "coupon_update(", "couponUpdate(")
+    ok_sources = tuple(x for x in ok_sources if x != "copy_or_downsample(") + tuple(n + "(" for n in downsamplers(fns))
     for pat, fn in sorted(fns.items()):
         if fn.get("rect") != "datasketches::hll_union_alloc" or fn["name"] != "union_impl":
             continue
